@@ -236,7 +236,7 @@ def run(pid, tier, seed, conf):
     modes = tuple(conf.get("crash_modes", ("kill",)))
     scenarios = []
     for op in conf.get("crash_ops", OPS):
-        for hist in HISTS + (["subranges"] if op == "cacheput" else []) + (["subset"] if op == "consolidate" else []):
+        for hist in HISTS + (["subranges", "tight"] if op == "cacheput" else []) + (["subset"] if op == "consolidate" else []):
             if op == "cacheinit" and hist == "empty":
                 continue
             for i in range(n_seeds):
